@@ -52,18 +52,32 @@ def distinct_words(name, seed):
     return None
 
 
-def render(name, a, e, lookups=(), tid=0x33, ts0=1000, nested=()):
-    evs = [EV.E(tid, name, 1, args=a)]
+def render(name, a, e, lookups=(), tid=0x33, ts0=1000, nested=(), stray_end=False):
+    evs = [EV.E(tid, name, 2, args=[e[0], e[3], e[2], e[1]])] if stray_end else []
+    evs.append(EV.E(tid, name, 1, args=a))
     for i, p in enumerate(lookups):
         evs += EV.lookup_events(tid, 50 + i, p)
     evs += list(nested)
     evs.append(EV.E(tid, name, 2, args=e))
     parser = EV.new_traces_parser()
-    out = [t for t in parser.feed_generator(EV.realize(evs, ts0=ts0)) if t.ktraces[0].func_qualifier == 1 and
-           t.ktraces[0].eventid == EV.eid(name) and t.ktraces[-1].func_qualifier == 2]
-    if len(out) != 1:
-        raise Violation('call-count', f'{name}: {len(out)} traces')
+    out = [t for t in parser.feed_generator(EV.realize(evs, ts0=ts0)) if t.ktraces[0].tid == tid and
+           t.ktraces[0].eventid == EV.eid(name)]
+    if len(out) != 1 or out[0].ktraces[0].func_qualifier != 1 or out[0].ktraces[-1].func_qualifier != 2:
+        raise Violation(f'call-count:{name}', f'{name}: {len(out)} traces for one START..END window (stray END before it: {stray_end})')
     return str(out[0])
+
+
+def check_literals(name, a, e, params, txt):
+    for k, p in enumerate(params):
+        p0 = TP.strip_comment(p)
+        if not NUM.match(p0):
+            continue
+        own = renderings(a[k]) if k < 4 else set()
+        others = {j: renderings(x) for j, x in enumerate(a + e) if j != k}
+        hit = [j for j, r in others.items() if p0 in r]
+        if p0 not in own:
+            src = f'START word {hit[0]}' if hit and hit[0] < 4 else (f'END word {hit[0] - 4}' if hit else 'no word of the window')
+            raise Violation(f'wrong-argument:{name}', f'{name}: parameter {k} shows {p0}, which is {src}, not START word {k}={a[k] if k < 4 else None}; text={txt!r} START={a} END={e}')
 
 
 def prop_decoder(ctx, case):
@@ -80,22 +94,13 @@ def prop_decoder(ctx, case):
         raise Violation('call-shape', f'{name}: {txt!r} is not name(p0, ...)')
     cname, params, rest = sc
     # (2) literal membership
-    for k, p in enumerate(params):
-        p0 = TP.strip_comment(p)
-        if not NUM.match(p0):
-            continue
-        own = renderings(a[k]) if k < 4 else set()
-        others = {j: renderings(x) for j, x in enumerate(a + e) if j != k}
-        hit = [j for j, r in others.items() if p0 in r]
-        if p0 not in own:
-            src = f'START word {hit[0]}' if hit and hit[0] < 4 else (f'END word {hit[0] - 4}' if hit else 'no word of the window')
-            raise Violation(f'wrong-argument:{name}', f'{name}: parameter {k} shows {p0}, which is {src}, not START word {k}={a[k] if k < 4 else None}; text={txt!r} START={a} END={e}')
+    check_literals(name, a, e, params, txt)
     # (4) purity: END, tid, timestamps, unrelated nested records
     e2 = list(S.expand_words(seed + 99, 3))
     de = domains.project(name, 2, e2)
     e2 = [int.from_bytes(de[8 * i:8 * i + 8], 'little') for i in range(4)]
     nested = [SC.junk(0x44, seed, 1), SC.junk(0x44, seed, 2)]
-    txt2 = guard(render, name, a, e2, lookups, tid=0x44, ts0=999999, nested=nested)
+    txt2 = guard(render, name, a, e2, lookups, tid=0x44, ts0=999999, nested=nested, stray_end=True)
     sc2 = TP.split_call(txt2)
     if sc2 is None or (sc2[0], sc2[1]) != (cname, params):
         raise Violation(f'call-part-impure:{name}', f'{name}: call part changed with END/tid/timestamps/nested records: {txt!r} vs {txt2!r}')
@@ -118,13 +123,18 @@ def prop_decoder(ctx, case):
                 raise Violation(f'position-leak:{name}', f'{name}: changing START word {k} changed parameter {i}: {txt!r} -> {txt3!r}')
     # (3) injectivity of enum-named parameters
     for k, vals in domains.START.get(name, {}).items():
-        if k < len(params) and re.match(r'^[A-Za-z_][A-Za-z0-9_]*$', params[k]):
+        if k < len(params):
             seen = {}
             for v in vals:
                 b = list(a)
                 b[k] = v
-                p = TP.split_call(guard(render, name, b, e, lookups))[1][k]
-                if p in seen and (seen[p] & 0xffffffff) != (v & 0xffffffff):
+                tb = guard(render, name, b, e, lookups)
+                pb = TP.split_call(tb)[1]
+                if all(renderings(b[i]).isdisjoint(renderings(b[j])) for i in range(4) for j in range(i + 1, 4)) and \
+                        all(renderings(b[k]).isdisjoint(renderings(x)) for x in e):
+                    check_literals(name, b, e, pb, tb)
+                p = pb[k]
+                if re.match(r'^[A-Za-z_][A-Za-z0-9_]*$', p) and p in seen and (seen[p] & 0xffffffff) != (v & 0xffffffff):
                     raise Violation('enum-not-injective', f'{name}: parameter {k} shows {p} for both {seen[p]} and {v}')
                 seen[p] = v
     ctx.note([name, a], nontrivial=all(a) and len(set(a)) == 4, classes=['bsd' if name.startswith('BSC_') else 'mach', f'lookups:{nlook}'])
